@@ -77,3 +77,11 @@ SUITES["C20"] = {"quick": [{"family": "world", "mode": "", "share": 2}, {"family
                  "thorough": [{"family": "world", "mode": "", "share": 3}, {"family": "world", "mode": "addpath", "share": 1}, {"family": "fsm", "mode": "", "share": 2}, {"family": "gr", "mode": "", "share": 1}, {"family": "wire", "mode": "fuzz", "share": 1},
                               {"family": "world", "mode": "", "share": 3, "race": True}, {"family": "fsm", "mode": "", "share": 1, "race": True}, {"family": "gr", "mode": "", "share": 1, "race": True}]}
 PROP_INFO["C20"]["rule"] = "all simulation families (world, fsm, gr, wire; thorough: also with the race detector on the same seeded schedules): every run ends with Stop / StopBgp / delete-all-peers at the point the script reached; monitors: process crash (panic), no scheduling progress for 20 s of real time (hang/deadlock watchdog), synctest deadlock detection, goroutines of the bubble left after shutdown (stack dump), connections handed to the daemon still open after shutdown, data race reports. NON-TRIVIAL: the run executed at least one quiescent check; DISTINCT by (schedule signature, event-log hash)."
+RPKI_RULE = ("two simulated RTR caches (own RFC 6810 encoder) reached through the simulated dial seam; per cache: record add/remove with or without Serial Notify, duplicate announcements, "
+             "cache restart with a new session id, connection resets, refused dials; API: AddRpki/DeleteRpki/EnableRpki/DisableRpki/ResetRpki (soft/hard); BGP routes from an eBGP and an iBGP "
+             "neighbour with AS_PATHs ending in SEQUENCE / SET / empty; waits across the cache lifetime (60 s). Oracle at probes: ListRpkiTable per cache == records confirmed by the last End-of-Data "
+             "(caches whose content is not pinned down - mid-lifetime, after injected corruption - are skipped for equality) and ListPath validation == RFC 6811 over the table. NON-TRIVIAL: at least "
+             "one probe compared a non-empty ROA set; DISTINCT by (schedule signature, event-log hash).")
+PROP_INFO["C16"] = {"level": "exploration", "rule": RPKI_RULE, "probes": ["rtr_end_of_data"], "budget": {"quick": 60, "thorough": 1200}}
+SUITES["C16"] = {"quick": [{"family": "rpki", "mode": "", "share": 1}], "thorough": [{"family": "rpki", "mode": "", "share": 3}, {"family": "rpki", "mode": "corrupt", "share": 1}]}
+ALL_FAMILIES += [("rpki", ""), ("rpki", "corrupt")]
